@@ -7,12 +7,158 @@ Model/Display.lean — exact integer comparison.
   cuboid   make_Cuboid(backend, dimension=(a,b,c), position=None|(x,y,z)): 2*x, 2*y, 2*z and the i, j, k arrays.
   tetra    make_Tetrahedron(vertices=4 integer points, non-degenerate): x, y, z (after check_chirality) and i, j, k.
   prism    make_Prism(base=N): i, j, k.     pyramid  make_Pyramid(base=N): i, j, k.
+
+Vertex COORDINATES of the generators that use sin / cos against Model/DisplayTrig.lean evaluated at Float (IEEE
+double on both sides, floats travel as bit patterns): lengths and order exact, values to relative 1e-12
+(`TRIG_RTOL`; in practice bit-identical, counted as `trig_bit_exact`):
+  prismv   make_Prism(base=N, diameter, height): x, y, z (2N+2 rows), N = 1..60
+  pyrv     make_Pyramid(base=N, diameter, height, pivot): x, y, z (N+1 rows)
+  segv     make_CylinderSegment(dimension=(r1,r2,h,phi1,phi2), vert): x, y, z (4N rows, N = max(5, int(vert*|phi1-phi2|/360)));
+           r1 = 0, phi1 = phi2, phi2-phi1 = 360, negative / beyond-360 / reversed angle ranges included
+  ellv     make_Ellipsoid(dimension=(a,b,c), vert=N): x, y, z (N*N-2N+2 rows) for N >= 4, ValueError for N <= 3
+  circ     traces_core.make_Circle(obj, base) line trace: x, y, z (base rows), base = 0..100
+  polyl    traces_core.make_Polyline(obj) line trace: x, y, z (bit-exact)
 """
+import struct
 import warnings
 
 import numpy as np
 
 from vlib.driver import run_driver
+
+TRIG_RTOL = 1e-12
+TRIG_KINDS = ("prismv", "pyrv", "segv", "ellv", "circ", "polyl")
+
+
+def _bits(x):
+    return str(struct.unpack("<Q", struct.pack("<d", float(x)))[0])
+
+
+def _unbits(t):
+    return struct.unpack("<d", struct.pack("<Q", int(t)))[0]
+
+
+def _rfloat(rng, allow_neg=False):
+    """a double with a random mantissa over a few decades"""
+    v = rng.uniform(0.1, 1.0) * 10.0 ** rng.randint(-3, 3)
+    if rng.random() < 0.3:
+        v = float(rng.randint(1, 20))
+    if allow_neg and rng.random() < 0.1:
+        v = -v
+    return v
+
+
+def gen_trig(rng):
+    """(case tuple, driver line)"""
+    r = rng.random()
+    if r < 0.24:
+        N = rng.choice([1, 2, 3, 3, 4, 5, 6, 50, 50]) if rng.random() < 0.3 else rng.randint(3, 60)
+        d, h = _rfloat(rng, True), _rfloat(rng, True)
+        return ("prismv", N, d, h), f"disp prismv {N} {_bits(d)} {_bits(h)}"
+    if r < 0.32:
+        N = rng.randint(1, 60)
+        d, h = _rfloat(rng), _rfloat(rng)
+        pivot = rng.choice(["tail", "tip", "middle"])
+        return ("pyrv", N, d, h, pivot), f"disp pyrv {N} {_bits(d)} {_bits(h)} {pivot}"
+    if r < 0.60:
+        vert = rng.choice([0, 1, 5, 10, 25, 25, 50, 50, 100, rng.randint(2, 200)])
+        r2 = _rfloat(rng)
+        r1 = 0.0 if rng.random() < 0.2 else r2 * rng.uniform(0.0, 1.0)
+        h = _rfloat(rng)
+        q = rng.random()
+        if q < 0.35:
+            phi1 = rng.uniform(-720.0, 720.0)
+            phi2 = phi1 + rng.uniform(0.0, 360.0)
+        elif q < 0.55:
+            phi1 = float(rng.choice([-360, -270, -180, -90, -45, 0, 30, 45, 90, 180, 270, 360, 400, 720]))
+            phi2 = phi1 + float(rng.choice([0, 1, 30, 45, 90, 180, 270, 359, 360, 360, 361, 720]))
+        elif q < 0.70:
+            phi1 = rng.uniform(-400.0, 400.0)
+            phi2 = phi1 + 360.0
+        elif q < 0.80:
+            phi1 = rng.uniform(-400.0, 400.0)
+            phi2 = phi1
+        elif q < 0.90:
+            phi2 = rng.uniform(-720.0, 720.0)  # reversed range (rejected by the CylinderSegment validator, accepted by the generator)
+            phi1 = phi2 + rng.uniform(0.0, 500.0)
+        else:
+            phi1 = rng.uniform(-1e-3, 1e-3)
+            phi2 = phi1 + rng.uniform(0.0, 1e3)
+        return ("segv", vert, r1, r2, h, phi1, phi2), "disp segv %d %s" % (vert, " ".join(_bits(v) for v in (r1, r2, h, phi1, phi2)))
+    if r < 0.75:
+        N = rng.choice([0, 1, 2, 3]) if rng.random() < 0.12 else rng.randint(4, 24)
+        a, b, c = _rfloat(rng), _rfloat(rng), _rfloat(rng)
+        if rng.random() < 0.4:
+            b = c = a  # sphere
+        return ("ellv", N, a, b, c), f"disp ellv {N} {_bits(a)} {_bits(b)} {_bits(c)}"
+    if r < 0.93:
+        base = rng.choice([0, 1, 2, 3, 72, 72, 72]) if rng.random() < 0.35 else rng.randint(2, 100)
+        d = _rfloat(rng)
+        return ("circ", base, d), f"disp circ {base} {_bits(d)}"
+    m = rng.randint(2, 7)
+    vs = [[rng.choice([0.0, float(rng.randint(-5, 5)), rng.uniform(-10, 10), rng.gauss(0, 1e-3)]) for _ in range(3)] for _ in range(m)]
+    return ("polyl", vs), "disp polyl %d %s" % (m, " ".join(_bits(c) for v in vs for c in v))
+
+
+def real_trig(magpy, tb, tc, c):
+    """x, y, z arrays of the real generator (or 'err <Class>')"""
+    kind = c[0]
+    if kind == "prismv":
+        _, N, d, h = c
+        t = tb.make_Prism("generic", base=N, diameter=d, height=h)["kwargs"]
+    elif kind == "pyrv":
+        _, N, d, h, pivot = c
+        t = tb.make_Pyramid("generic", base=N, diameter=d, height=h, pivot=pivot)["kwargs"]
+    elif kind == "segv":
+        _, vert, r1, r2, h, p1, p2 = c
+        t = tb.make_CylinderSegment("generic", dimension=np.array([r1, r2, h, p1, p2]), vert=vert)["kwargs"]
+    elif kind == "ellv":
+        _, N, a, b, cc = c
+        try:
+            t = tb.make_Ellipsoid("generic", dimension=np.array([a, b, cc]), vert=N)["kwargs"]
+        except ValueError:
+            return "err ValueError"
+    elif kind == "circ":
+        _, base, d = c
+        o = magpy.current.Circle(current=1.0, diameter=d)
+        o.style.arrow.show = False
+        o.style.line.show = True
+        (t,) = tc.make_Circle(o, base=base)
+    else:
+        _, vs = c
+        o = magpy.current.Polyline(current=1.0, vertices=vs)
+        o.style.arrow.show = False
+        o.style.line.show = True
+        (t,) = tc.make_Polyline(o)
+    return [np.asarray(t[k], dtype=float).reshape(-1) for k in "xyz"]
+
+
+def compare_trig(kind, real, mo, stats):
+    """None when equal (lengths / order exact, values to TRIG_RTOL; polyl bit-exact), else a description"""
+    if isinstance(real, str):
+        return None if real == mo.strip() else "error kinds differ"
+    if not mo.startswith("ok"):
+        return "model reports " + mo[:60]
+    parts = mo[2:].split(";")
+    if len(parts) != 3:
+        return "model line malformed"
+    for name, ra, part in zip("xyz", real, parts):
+        ma = [_unbits(t) for t in part.split()]
+        if len(ma) != len(ra):
+            return f"length of {name}: model {len(ma)} real {len(ra)}"
+        for idx, (a, b) in enumerate(zip(ra.tolist(), ma)):
+            if a == b:
+                stats["trig_bit_exact"] += (_bits(a) == _bits(b)) or a == 0.0
+                stats["trig_values"] += 1
+                continue
+            stats["trig_values"] += 1
+            if a != a or b != b or kind == "polyl":
+                return f"{name}[{idx}]: model {b!r} real {a!r}"
+            dev = abs(a - b) / max(abs(a), abs(b))
+            stats["trig_max_rel_dev"] = max(stats["trig_max_rel_dev"], dev)
+            if dev > TRIG_RTOL:
+                return f"{name}[{idx}]: model {b!r} real {a!r} rel {dev:.3g}"
+    return None
 
 
 def _ints(a):
@@ -107,10 +253,16 @@ def trace_of(model, backend):
 def run_stream(ctx, n):
     import magpylib as magpy
     from magpylib._src.display import traces_base as tb
+    from magpylib._src.display import traces_core as tc
 
     rng = ctx.rng
     cases, lines = [], []
     for _ in range(n):
+        if rng.random() < 0.4:
+            c, line = gen_trig(rng)
+            cases.append(c)
+            lines.append(line)
+            continue
         r = rng.random()
         if r < 0.62:
             plen = rng.randint(1, 8)
@@ -143,7 +295,10 @@ def run_stream(ctx, n):
     out = run_driver(lines)
 
     stats = {"cases": n, "inds": 0, "inds_errors": 0, "inds_negative_returned": 0, "inds_row_drawn_twice": 0, "inds_last_row_missing": 0,
-             "cuboid": 0, "tetra": 0, "tetra_swapped": 0, "prism": 0, "pyramid": 0, "disagreements": 0, "distinct": 0}
+             "cuboid": 0, "tetra": 0, "tetra_swapped": 0, "prism": 0, "pyramid": 0, "disagreements": 0, "distinct": 0,
+             "prismv": 0, "pyrv": 0, "segv": 0, "segv_r1_zero": 0, "segv_full_360": 0, "segv_zero_span": 0, "segv_reversed": 0, "segv_beyond_360": 0,
+             "segv_negative": 0, "ellv": 0, "ellv_errors": 0, "circ": 0, "polyl": 0, "trig_values": 0, "trig_bit_exact": 0, "trig_max_rel_dev": 0.0,
+             "trig_rtol": TRIG_RTOL}
     seen, samples = set(), []
     objs = {}
     with warnings.catch_warnings():
@@ -151,6 +306,31 @@ def run_stream(ctx, n):
         for c, line, mo in zip(cases, lines, out):
             kind = c[0]
             stats[kind] += 1
+            if kind in TRIG_KINDS:
+                try:
+                    real = real_trig(magpy, tb, tc, c)
+                    why = compare_trig(kind, real, mo, stats)
+                except Exception as e:
+                    real, why = None, f"harness: {type(e).__name__}: {e}"
+                if kind == "segv":
+                    _, vert, r1, r2, h, p1, p2 = c
+                    stats["segv_r1_zero"] += r1 == 0.0
+                    stats["segv_full_360"] += p2 - p1 == 360
+                    stats["segv_zero_span"] += p1 == p2
+                    stats["segv_reversed"] += p2 < p1
+                    stats["segv_beyond_360"] += max(abs(p1), abs(p2)) > 360 or abs(p2 - p1) > 360
+                    stats["segv_negative"] += p1 < 0
+                if kind == "ellv":
+                    stats["ellv_errors"] += isinstance(real, str)
+                shown = real if isinstance(real, str) else ("ok " + " ; ".join(" ".join(repr(v) for v in a.tolist()[:4]) for a in real) if real is not None else "?")
+                seen.add((kind, line))
+                if len(samples) < 12 and kind not in [s_["kind"] for s_ in samples]:
+                    samples.append({"kind": kind, "line": line, "model": mo[:200], "real": shown[:200]})
+                if why is not None:
+                    stats["disagreements"] += 1
+                    if stats["disagreements"] <= 3:
+                        ctx.broken.append({"kind": "correspondence", "name": "disp", "detail": {"line": line, "case": repr(c)[:300], "why": why, "model": mo[:300], "real": shown[:300]}})
+                continue
             try:
                 if kind == "inds":
                     _, plen, val = c
@@ -184,7 +364,7 @@ def run_stream(ctx, n):
             except Exception as e:  # the harness could not canonicalise what the real code returned
                 real = f"harness: {type(e).__name__}: {e}"
             seen.add((kind, real))
-            if len(samples) < 6 and kind not in [s["kind"] for s in samples]:
+            if len(samples) < 12 and kind not in [s["kind"] for s in samples]:
                 samples.append({"kind": kind, "line": line, "model": mo[:200], "real": real[:200]})
             if real.strip() != mo.strip():
                 stats["disagreements"] += 1
